@@ -102,7 +102,7 @@ def laws(ld):
         need(d.indexable)
         n = n_of(d)
         need(n >= 3)
-        sel = list(range(n))[s]
+        sel = set(range(n)[s])
         inside = {sid(d[j]) for j in sel}
         outside = {sid(d[j]) for j in range(n) if j not in sel}
         need(outside and not (inside & outside))
